@@ -75,7 +75,14 @@ func runC16(c *wk.Ctx) {
 		}
 		frame, err := s.Parse(b) // warm-up: creates the host if the source is new
 		if err != nil {
-			continue // acceptance differences are C02's business
+			// acceptance differences are C02's business; but a frame the reference decoder finds well-formed is covered by the
+			// allocation clause whatever Parse makes of it (an error value is a heap allocation)
+			if !ref.Err && !ref.DontCare {
+				if allocs := testing.AllocsPerRun(20, func() { s.Parse(b) }); allocs > 0 {
+					c.Viol("alloc:well-formed-frame-rejected", fmt.Sprintf("Parse rejects a frame the reference decoder finds well-formed (%v) and allocates %.2f objects per call (%s)", err, allocs, runName), cs())
+				}
+			}
+			continue
 		}
 		if ref.Err {
 			// the reference decoder rejects this frame (acceptance differences are C02's business): if Parse accepts it, the
